@@ -32,6 +32,7 @@ type reqStep struct {
 	close   bool
 	panic   bool
 	echo    bool
+	past    bool // a blocking read with a read deadline that has already passed
 }
 
 type lifeRun struct {
@@ -139,6 +140,8 @@ func runLife(e *Env, focus string) {
 			st.panic = !detach && e.Chance(1, 8)
 		} else if focus == "C09" {
 			st.close = e.Chance(1, 10)
+		} else if focus == "C06" {
+			st.past = e.Chance(1, 5)
 		}
 	}
 	total := e.Pick(0, 1, 2, 10, 50, 200, 700)
@@ -250,6 +253,21 @@ func runLife(e *Env, focus string) {
 				echo = append(echo, p...)
 				l.consumed += k
 				rd.Release()
+			}
+			if st.past {
+				// a read that needs more than is buffered, with a deadline already in the past: it reports
+				// a timeout at once (or succeeds when the bytes have arrived meanwhile) and leaves nothing behind
+				c.SetReadDeadline(time.Unix(0, simrt.UnixNano()-1))
+				want := rd.Len() + 1 + e.Intn(8)
+				if p, err := rd.Next(want); err == nil {
+					if bad := checkStream(lifeStream, l.consumed, p); bad >= 0 {
+						e.FailP("C04", "stream-intact", "handler-content", "handler read %d bytes at stream position %d: byte %d differs", want, l.consumed, bad)
+					}
+					l.consumed += want
+					k += want
+					rd.Release()
+				}
+				c.SetReadDeadline(time.Time{})
 			}
 			if st.gate {
 				simrt.WaitUntil("gate(OnRequest)", func() bool { return l.gates })
